@@ -1,16 +1,39 @@
 /-
   Driver.C02 — stream `C02`: payload `(history tokens*)`: each element of the history is the token list of
   one parse on the same parser object; the observation is taken after each parse.
+  `(wrap text)`: `addStartTag(text, '<xxxblank>') + '</xxxblank>'`; `(strip text)`: `stripIEConditionals(text)`;
+  `(stripparse text stripped toks1 toks2)`: `parseStr(text)` with the stripping step done by the model.
 -/
 import Driver.TokIO
+import AHP.Model.StripIE
 namespace Driver.C02
 open AHP AHP.Sexp Driver.TokIO
 
+/-- the two passes on token sequences supplied from outside (as in stream C03): for text that is not in the
+    serialiser's image the tokens of the wrapped text are not `wrapToks` of the tokens of the text -/
+def feed2 (t1 t2 : List Token) : FeedResult :=
+  match AHP.run BState.init t1 with
+  | .multipleRoot => FeedResult.ofPass true (AHP.run BState.init t2)
+  | o => FeedResult.ofPass false o
+
 def run (payload : String) : String :=
   match Sexp.parse payload with
+  | some (.list [.atom "stripparse", t, st, a, b]) =>
+    -- `parseStr(text)`: the model strips; the real tokenizer's tokens of the *real* stripped text (and of that
+    -- text wrapped) are used only if the model's stripped text is the real one
+    match toStr? t, toStr? st, toTokens? a, toTokens? b with
+    | some text, some stripped, some t1, some t2 =>
+      if stripIE text = stripped then (feedSx (feed2 t1 t2)).render
+      else (Sexp.list [sym "strip-mismatch", strAtom (stripIE text)]).render
+    | _, _, _, _ => "bad-case"
   | some (.list [.atom "wrap", t]) =>
     match toStr? t with
     | some text => (strAtom (wrapStr text)).render
+    | none => "bad-case"
+  | some (.list [.atom "strip", t]) =>
+    -- `utils.stripIEConditionals(text)`
+    match toStr? t with
+    | some text => (strAtom (stripIE text)).render
     | none => "bad-case"
   | some (.list hist) =>
     match hist.mapM toTokens? with
